@@ -99,7 +99,7 @@ def run_plan(property_id, tier, report, extra=None, rule=None):
             {"cfg": cfg, "deviation": what, "violated": result.violated, "states": result.generated})
     # code -> spec: executions recorded through the hooks are validated against SessionTrace.tla
     from harness import trace_drivers
-    if first_vectors:
+    if first_vectors and property_id != "C20":  # (recording checks are user-defined: outside SessionTrace's check kinds)
         trace_drivers.sample_and_validate(report, first_vectors, 300 if tier == "quick" else 4000,
                                           "sample of the TLC-generated histories replayed with the hooks on",
                                           demo=not report.violations)
